@@ -26,6 +26,7 @@ type Cfg struct {
 	Units          bool
 	OneOf          bool
 	Describable    bool // restrict to what the meta-schema can express (for C09)
+	GoodDefaults   bool // never generate a default the property's type rejects
 	NoPatternProps bool
 }
 
@@ -351,10 +352,13 @@ func (c *ctx) decorate(s *Shape, env *Env) {
 		}
 		if c.cfg.Defaults && r.Chance(25) {
 			if raw, ok := ValidRaw(r, p.T, env, 0); ok {
-				if r.Chance(5) { // a default the type rejects (rare)
+				if !c.cfg.GoodDefaults && r.Chance(5) { // a default the type rejects (rare)
 					raw = "not-a-valid-default"
 				}
 				p.Default = jsonText(jsonable(raw))
+				if c.cfg.GoodDefaults && lossyInJSON(raw) {
+					p.Default = nil // integers beyond 2^53 do not survive the JSON text of a default
+				}
 			}
 		}
 		if c.cfg.Disabled && r.Chance(6) {
@@ -790,4 +794,32 @@ func fixValueFields(s *Shape) {
 			p.ReqIf, p.ReqIfNot = nil, nil
 		}
 	}
+}
+
+func lossyInJSON(v any) bool {
+	switch x := v.(type) {
+	case int64:
+		return x > 1<<53 || x < -(1<<53)
+	case float64:
+		return math.IsNaN(x) || math.IsInf(x, 0)
+	case []any:
+		for _, e := range x {
+			if lossyInJSON(e) {
+				return true
+			}
+		}
+	case map[string]any:
+		for _, e := range x {
+			if lossyInJSON(e) {
+				return true
+			}
+		}
+	case map[any]any:
+		for k, e := range x {
+			if lossyInJSON(k) || lossyInJSON(e) {
+				return true
+			}
+		}
+	}
+	return false
 }
